@@ -171,6 +171,15 @@ def run_case(case):
                 viol.append(dict(sig="endpoint-convention", what=f"{name} at x={p['x']}: non-zero entries although the convolution domain is empty"))
             continue
         cellbase = f"{case['kind']}|{case['heavy']}|{case['obs']['prDIS']}|{th['FNS']}"
+        # how well does the basis represent the in-span PDF in floating point on [x,1]?  (monomial-form round-off, grows with
+        # degree and node density; the convolution amplifies it near x -> 1: allow 30x the measured residual)
+        fnodes = np.array([[pdf.f(pid, xj) for xj in nodes] for pid in cards.PIDS])
+        span_resid = 0.0
+        for u in np.exp(np.linspace(np.log(p["x"]), 0.0, 41))[:-1]:
+            bu = run.basis_at(interp, float(u))
+            for ip_, pid in enumerate(cards.PIDS[:9:4]):
+                ex_ = pdf.f(pid, float(u))
+                span_resid = max(span_resid, abs(float(fnodes[cards.PIDS.index(pid)] @ bu) - ex_) / max(float(np.max(np.abs(fnodes[cards.PIDS.index(pid)]))), 1e-300))
         for o in range(th["PTODIS"] + 1):
             got = np.asarray(res.orders[(o, 0, 0, 0)][0])
             e = exp.get(o, np.zeros_like(got)) + np.zeros_like(got)
@@ -180,7 +189,13 @@ def run_case(case):
                 viol.append(dict(sig=f"nonfinite-entry|o{o}", what=f"{name} order {o}: non-finite operator entries"))
                 continue
             smax = float(s.max())
-            m, d = run.cmp(got[finite_both], e[finite_both], smax, RTOL[o], 1e-300)
+            # "up to quadrature accuracy": besides the calibrated rtol, allow what the code itself reports as integration error
+            # (a massive kernel's threshold kink inside the range is not among yadism's break points: measured 2.4e-6 relative
+            # there, with an error estimate of the same size)
+            errt = np.abs(np.asarray(res.orders[(o, 0, 0, 0)][1]))
+            tolm = RTOL[o] * smax + 5.0 * errt + 1e-300
+            dm = np.abs(got - e)
+            m, d = float(np.max(dm[finite_both] / tolm[finite_both])), float(np.max(dm[finite_both]))
             compared += got.size
             classes.add("replay")
             if np.any(e != 0):
@@ -199,7 +214,7 @@ def run_case(case):
             se, ss = span_exp.get(o, 0.0), span_scale.get(o, 0.0)
             # the in-span identity sum_j f(x_j) p_j(u) = f(u) itself only holds up to the round-off of eko's monomial-form basis
             # (measured up to 1e-7 on fine log grids): the span oracle cannot be sharper than that, the replay oracle above is
-            m2_, d2 = run.cmp(contr, se, ss, max(RTOL[o], 1e-7) * 3, 1e-300)
+            m2_, d2 = run.cmp(contr, se, ss, max(RTOL[o], 1e-7) * 3 + 30.0 * span_resid, float(np.sum(np.abs(np.asarray(res.orders[(o, 0, 0, 0)][1]) * fnodes))) * 5.0 + 1e-300)
             compared += 1
             classes.add("span")
             if ss > 0:
